@@ -181,7 +181,36 @@ def r10_5(run, model):
     run.ob("R10.5", "lexer|all ten suffixes", need <= set(seen), site(TB.LEXER, None), f"suffix tokens: {sorted(seen)}", witness="a suffixed literal of a missing width lexes as Int followed by an identifier")
 
 
+def r10_6(run, model):
+    run.rule("R10.6", "one type per literal: where a literal is range-checked/parsed by parse_*_literal_with_ty(.., X) and falls back to "
+                      "Prim::zero_for_int_ty(Y) / from_float_literal(0.0, Y), X and Y are the same type expression (the literal's own type), "
+                      "and X is that function's literal type, never the type expected by the context")
+    n = 0
+    for f in model.fns(CHECK):
+        if f.body is None:
+            continue
+        for c in S.walk(f.body):
+            if c["k"] != "MethodCall" or c["method"] != "unwrap_or_else":
+                continue
+            inner = c["recv"]
+            if inner["k"] != "MethodCall" or inner["method"] not in ("parse_integer_literal_with_ty", "parse_float_literal_with_ty") or len(inner["args"]) < 3:
+                continue
+            fb = [x for x in S.walk(c["args"][0]) if x["k"] == "Call" and S.callee_name(x) in ("zero_for_int_ty", "from_float_literal")]
+            if not fb:
+                continue
+            n += 1
+            norm = lambda e: re.sub(r"^&|\.clone\(\)$", "", S.norm_ws(run.facts.text(CHECK, e["sp"])))
+            x = norm(inner["args"][2])
+            y = norm(fb[0]["args"][-1])
+            ok = x == y and not re.search(r"expected", x)
+            run.ob("R10.6", f"{f.qual}|literal parsed at its own type #{n}" if ok else f"{f.qual}|literal parsed at `{x}` but defaulted at `{y}`", ok, site(CHECK, c["sp"]),
+                   f"{inner['method']}(.., {x}) with fallback at {y}",
+                   witness="Some(300u8) as a pattern on Opt[uint8]: the expected type is still a type variable, the range check is skipped and the pattern becomes `case 0`")
+    run.floor("literal parse sites with a typed fallback", n, 12)
+
+
 def run(run, model):
+    run.try_rule(r10_6, model)
     run.try_rule(r10_1, model)
     run.try_rule(r10_2, model)
     run.try_rule(r10_3, model)
